@@ -1191,6 +1191,167 @@ def context_managers_to_try(program, log):
         rewrite(f.node.body, f)
 
 
+def setdefault_fresh(program, log):
+    """`x = Fresh()` immediately followed by `if D.setdefault(k, x) is x: BODY`
+    reads `if k not in D: x = Fresh(); D[k] = x; BODY` - setdefault returns the
+    brand-new object exactly when the key was absent.  Fresh() is `{}`, `[]`,
+    `set()`, `dict()`, `list()` or an argument-less constructor of an in-repo
+    class whose __init__ only initialises fields."""
+    import copy as _copy
+
+    def plain_ctor(f, v):
+        if isinstance(v, (ast.Dict, ast.List, ast.Set)):
+            return not (getattr(v, 'keys', None) or getattr(v, 'elts', None))
+        if not (isinstance(v, ast.Call) and not v.args and not v.keywords):
+            return False
+        d = dotted(v.func) or ''
+        if d in ('dict', 'list', 'set'):
+            return True
+        c = program.lookup_class(f.module, d)
+        if c is None:
+            return False
+        ini = c.methods.get('__init__')
+        if ini is None:
+            return True
+        for s in ini.node.body:
+            if isinstance(s, ast.Expr) and isinstance(s.value, ast.Constant):
+                continue
+            tg = s.targets[0] if isinstance(s, ast.Assign) and len(
+                s.targets) == 1 else getattr(s, 'target', None)
+            if not (isinstance(s, (ast.Assign, ast.AnnAssign)) and _self_attr(
+                    tg) is not None and s.value is not None):
+                return False
+            if any(isinstance(x, ast.Call) and (dotted(x.func) or ''
+                                                ).split('.')[-1] not in (
+                    'dict', 'list', 'set', 'ChainMap', 'deque', 'frozenset')
+                    for x in ast.walk(s.value)):
+                return False
+        return True
+
+    def rewrite(body, f):
+        i = 0
+        while i < len(body):
+            st = body[i]
+            for fld in ('body', 'orelse', 'finalbody'):
+                sub_ = getattr(st, fld, None)
+                if isinstance(sub_, list) and sub_ and isinstance(
+                        sub_[0], ast.stmt):
+                    rewrite(sub_, f)
+            for h in getattr(st, 'handlers', []) or []:
+                rewrite(h.body, f)
+            nxt = body[i + 1] if i + 1 < len(body) else None
+            if isinstance(st, ast.Assign) and len(st.targets) == 1 \
+                    and isinstance(st.targets[0], ast.Name) \
+                    and plain_ctor(f, st.value) \
+                    and isinstance(nxt, ast.If) and not nxt.orelse \
+                    and isinstance(nxt.test, ast.Compare) \
+                    and len(nxt.test.ops) == 1 \
+                    and isinstance(nxt.test.ops[0], ast.Is) \
+                    and isinstance(nxt.test.comparators[0], ast.Name) \
+                    and nxt.test.comparators[0].id == st.targets[0].id \
+                    and isinstance(nxt.test.left, ast.Call) \
+                    and isinstance(nxt.test.left.func, ast.Attribute) \
+                    and nxt.test.left.func.attr == 'setdefault' \
+                    and len(nxt.test.left.args) == 2 \
+                    and isinstance(nxt.test.left.args[1], ast.Name) \
+                    and nxt.test.left.args[1].id == st.targets[0].id:
+                x = st.targets[0].id
+                inside = {id(n) for s in nxt.body for n in ast.walk(s)}
+                uses = [n for n in ast.walk(f.node) if isinstance(n, ast.Name)
+                        and n.id == x and n is not st.targets[0]
+                        and n is not nxt.test.comparators[0]
+                        and n is not nxt.test.left.args[1]]
+                if all(id(n) in inside for n in uses):
+                    d_, k_ = nxt.test.left.func.value, nxt.test.left.args[0]
+                    new_if = ast.If(
+                        test=ast.Compare(_copy.deepcopy(k_), [ast.NotIn()],
+                                         [_copy.deepcopy(d_)]),
+                        body=[st, ast.Assign(
+                            [ast.Subscript(_copy.deepcopy(d_),
+                                           _copy.deepcopy(k_), ast.Store())],
+                            ast.Name(x, ast.Load()))] + nxt.body,
+                        orelse=[])
+                    ast.copy_location(new_if, nxt)
+                    for n_ in ast.walk(new_if):
+                        if not hasattr(n_, 'lineno'):
+                            ast.copy_location(n_, nxt)
+                    ast.fix_missing_locations(new_if)
+                    body[i:i + 2] = [new_if]
+                    log.append(f'{f.where}: `{x} = <fresh>` + `if ...'
+                               f'.setdefault(k, {x}) is {x}` read as a '
+                               'membership test, construction and store')
+                    continue
+            i += 1
+
+    for f in program.all_functions():
+        rewrite(f.node.body, f)
+
+
+def drain_loops(program, log):
+    """`while D: k, v = D.popitem(); BODY` (D a local or an attribute chain;
+    BODY without calls, without mention of D, k unused) reads
+    `for v in D.values(): BODY` followed by `D.clear()`: every value is
+    visited once and D ends empty; BODY cannot observe the difference."""
+    import copy as _copy
+
+    def rewrite(body, f):
+        i = 0
+        while i < len(body):
+            st = body[i]
+            for fld in ('body', 'orelse', 'finalbody'):
+                sub_ = getattr(st, fld, None)
+                if isinstance(sub_, list) and sub_ and isinstance(
+                        sub_[0], ast.stmt):
+                    rewrite(sub_, f)
+            for h in getattr(st, 'handlers', []) or []:
+                rewrite(h.body, f)
+            if isinstance(st, ast.While) and not st.orelse and st.body \
+                    and dotted(st.test) and isinstance(
+                        st.body[0], ast.Assign) \
+                    and len(st.body[0].targets) == 1 \
+                    and isinstance(st.body[0].targets[0], ast.Tuple) \
+                    and len(st.body[0].targets[0].elts) == 2 \
+                    and all(isinstance(e, ast.Name)
+                            for e in st.body[0].targets[0].elts) \
+                    and isinstance(st.body[0].value, ast.Call) \
+                    and isinstance(st.body[0].value.func, ast.Attribute) \
+                    and st.body[0].value.func.attr == 'popitem' \
+                    and not st.body[0].value.args \
+                    and dotted(st.body[0].value.func.value) == dotted(
+                        st.test):
+                d_ = dotted(st.test)
+                k_, v_ = [e.id for e in st.body[0].targets[0].elts]
+                rest = st.body[1:]
+                clean = not any(
+                    isinstance(x, (ast.Call, ast.Break, ast.Continue,
+                                   ast.Return, ast.Yield, ast.Await))
+                    or (dotted(x) == d_) or (isinstance(x, ast.Name)
+                                             and x.id == k_)
+                    for s in rest for x in ast.walk(s))
+                if clean and rest:
+                    loop = ast.For(
+                        target=ast.Name(v_, ast.Store()),
+                        iter=ast.Call(ast.Attribute(_copy.deepcopy(st.test),
+                                                    'values', ast.Load()),
+                                      [], []),
+                        body=rest, orelse=[])
+                    clr = ast.Expr(ast.Call(ast.Attribute(
+                        _copy.deepcopy(st.test), 'clear', ast.Load()), [], []))
+                    for n_ in (loop, clr):
+                        ast.copy_location(n_, st)
+                        ast.fix_missing_locations(n_)
+                    body[i:i + 1] = [loop, clr]
+                    log.append(f'{f.where}: `while {d_}: _, {v_} = {d_}'
+                               '.popitem()` read as a loop over the values '
+                               'followed by clear()')
+                    i += 2
+                    continue
+            i += 1
+
+    for f in program.all_functions():
+        rewrite(f.node.body, f)
+
+
 def rotate_idiom(program, log):
     """`q.append(q.popleft())` on a deque known to be non-empty (an earlier
     statement of the same block returns when it is empty / has at most one
@@ -1732,7 +1893,8 @@ def run(program):
     program.records = {}
     program.cow = set()
     for step in (explicit_properties, walrus_out, inline_simple_decorators,
-                 sentinel_lookups, mirror_locals, rotate_idiom, inline_aliases, context_managers_to_try, rpartition_keys,
+                 sentinel_lookups, setdefault_fresh, mirror_locals,
+                 rotate_idiom, drain_loops, inline_aliases, context_managers_to_try, rpartition_keys,
                  slices_of_islice,
                  pop_last_idiom,
                  bool_dispatch_tables, yield_from_genexp, copy_on_write_sets,
